@@ -48,6 +48,10 @@ pub fn expand(input: &DeriveInput, trait_name: &'static str) -> Result<TokenStre
         );
         let variant_ident = &variant.ident;
         let (data_pattern, ret_value, data_types) = get_field_info(&variant.fields);
+        let ref_data_types: Vec<_> = data_types
+            .iter()
+            .map(crate::utils::behind_reference)
+            .collect();
         let pattern = quote! { #enum_name :: #variant_ident #data_pattern };
 
         let (failed_block, failed_block_ref, failed_block_mut) = (
@@ -87,7 +91,7 @@ pub fn expand(input: &DeriveInput, trait_name: &'static str) -> Result<TokenStre
             #[doc = #doc_ref]
             #[doc = #doc_else]
             pub fn #ref_fn_name(&self) -> derive_more::core::result::Result<
-                (#(&#data_types),*), derive_more::TryUnwrapError<&Self>
+                (#(&#ref_data_types),*), derive_more::TryUnwrapError<&Self>
             > {
                 match self {
                     #pattern => derive_more::core::result::Result::Ok(#ret_value),
@@ -102,7 +106,7 @@ pub fn expand(input: &DeriveInput, trait_name: &'static str) -> Result<TokenStre
             #[doc = #doc_mut]
             #[doc = #doc_else]
             pub fn #mut_fn_name(&mut self) -> derive_more::core::result::Result<
-                (#(&mut #data_types),*), derive_more::TryUnwrapError<&mut Self>
+                (#(&mut #ref_data_types),*), derive_more::TryUnwrapError<&mut Self>
             > {
                 match self {
                     #pattern => derive_more::core::result::Result::Ok(#ret_value),
